@@ -669,6 +669,10 @@ var prCorpus = func() []prCase {
 		mk(`(?x) a b # c`+"\n"+` {2}`, 0, false),
 		mk(`(?<2147483647>a)`, 0, false),
 		mk(`(a)(?<5>b)(?<x>c)`, 0, true),
+		// D50: RE2 (?P=name) right after (?( is not a back reference there
+		mk(`(?<n>a)(?(?P=n)b)`, regexp2.RE2, false),
+		mk(`(?(?P=n)b|c)(?P<n>a)`, regexp2.RE2, false),
+		mk(`(?<n>a)(?:(?P=n))(?(n)b|c)`, regexp2.RE2, false),
 	}
 }()
 
